@@ -1149,5 +1149,56 @@ CONFIG["C03"] = dict(
     assumptions=_CLIENT_ASSUME,
 )
 
+
+CONFIG["C04"] = dict(
+    modules=["Mdns.Props.C04"],
+    model_files="Mdns/Model/Client.lean, Mdns/Model/Cache.lean, Mdns/Model/Record.lean, Mdns/Model/Decode.lean",
+    nontrivial=_sim_nontrivial,
+    extra_evidence=_sim_extra,
+    rule=_CLIENT_RULE,
+    level_text="Lean theorems on the client model: followup_queued (an update touching an instance with a usable PTR of a browsed "
+               "type that cannot be resolved - only the PTR arrived, or SRV without address - queues Resolve(inst,1) at now+500 "
+               "with a timer and marks it pending), followup_step (executing Resolve(inst,k) sends exactly the missing question: "
+               "ANY inst without SRV entry, A+AAAA of the SRV target without address entry, nothing otherwise - and queues try "
+               "k+1 500 ms ahead iff k < 3), resolved_when_complete / resolvedComplete_partial (an update touching an instance "
+               "whose PTR, SRV and address are usable emits ServiceResolved on the browse channel in that very step), touched_by "
+               "(which records count as an update). The completeness invariant over histories is stated "
+               "(ResolvedComplete_full) and REFUTED on a concrete history (resolvedComplete_full_false: an address first seen as "
+               "a goodbye and re-announced within the second only refreshes the cached entry, nothing re-resolves the "
+               "instance) - the same history reproduces on the real daemon (corpus-candidates/C04). The model is compared "
+               "exactly with the real daemon on every generated history (any partition / order / duplication of the record set, "
+               "foreign mixes, follow-ups answered after 1-3 tries); the monitor ok_C04 decides completeness by the next step "
+               "and the three follow-up queries on the real trace.",
+    level_note=_CLIENT_NOTE,
+    partial=["ResolvedComplete is proved as a step contract only; as an invariant it is false of model and code (re-delivered, "
+             "not new, records are not updates): resolvedComplete_full_false",
+             "the +500/+1000/+1500 schedule is a step contract plus a `decide` example; the timely-scheduler composition is C12's"],
+    assumptions=_CLIENT_ASSUME,
+)
+
+CONFIG["C05"] = dict(
+    modules=["Mdns.Props.C05"],
+    model_files="Mdns/Model/Client.lean, Mdns/Model/Cache.lean, Mdns/Model/Record.lean, Mdns/Model/Decode.lean",
+    nontrivial=_sim_nontrivial,
+    extra_evidence=_sim_extra,
+    rule=_CLIENT_RULE,
+    level_text="Lean theorems on the client model, for ANY history: removed_sound / removed_sound_run (every ServiceRemoved(ty, "
+               "inst) emitted at `now` has one of the two reasons the code has, on a cache justified by the delivered records: "
+               "a PTR entry ty->inst with expires <= now or all SRV entries of inst expired (eviction), or inst had been "
+               "resolved, a usable PTR still points to it and it can no longer be resolved - no usable SRV or no usable address "
+               "of its host), not_evicted_while_live / not_unresolved_while_live (the contrapositives: never while PTR, SRV and "
+               "address are live), goodbye_expiry (a goodbye sets the cached copy's expiry to exactly t+1000), removed_on_time "
+               "(the eviction step of an iteration at now >= expiry sends ServiceRemoved on the browse channel) and "
+               "not_removed_before, verify_deadline. The model is compared exactly with the real daemon on every generated "
+               "history (goodbyes of all or part of the set, duplicated, re-announced within the second, silent expiry, verify "
+               "1..10000 ms); the monitor ok_C05 derives due times from the delivered TTLs on the real trace.",
+    level_note=_CLIENT_NOTE,
+    partial=["removed_quiet (no ServiceResolved after ServiceRemoved without new records) is not proved: with several SRV records "
+             "of one instance the first usable SRV can change by expiry alone",
+             "timeliness is a step contract (the iteration at the expiry instant exists by C12's wake-up theorems, composed in "
+             "the monitor, not in Lean)"],
+    assumptions=_CLIENT_ASSUME,
+)
+
 # reasons for properties that are deliberately not claimed (default text in tools/mkmanifest.py)
 NOT_CLAIMED = {}
